@@ -632,7 +632,21 @@ class Interp:
         kind = target[0]
         if kind == 'mir':
             f, substs = target[1], target[2]
-            # adapt self-by-ref/by-value mismatches for closures called through Fn* traits
+            # `impl PartialEq<&B> for &A` & friends: std forwards through one reference level to the local impl
+            if text.startswith('<&'):
+                args = list(args)
+                for i_, (pidx, pty) in enumerate(f.params[:len(args)]):
+                    want = 0; t_ = pty.strip()
+                    while t_.startswith('&'):
+                        want += 1; t_ = t_[1:].lstrip()
+                        if t_.startswith('mut '): t_ = t_[4:]
+                        t_ = re.sub(r"^'[a-z_]+ ", '', t_)
+                    v_ = args[i_]; have = 0; w_ = v_
+                    while isinstance(w_, Ref):
+                        have += 1; w_ = w_.get()
+                    while have > want and isinstance(v_, Ref) and isinstance(v_.get(), Ref):
+                        v_ = v_.get(); have -= 1
+                    args[i_] = v_
             return self.run_fn(f, args, substs)
         if kind == 'model':
             return target[1](self, args, target[2])
